@@ -86,9 +86,34 @@ def h_plumbing(h):
             h.raises(lambda: d.fit(x, y), (NotImplementedError,), "weighted-constrained-fit-not-supported")
             return
         d.fit(x, y)
+        refit = bool(h.cfg.get("refit"))
+        if refit:
+            # history: the SAME object is fitted again to new ordinates on the SAME abscissa array (a model re-fitted
+            # to other data of the same intervals): everything handed to the optimiser must belong to the second data
+            p1 = list(d.parameters.values())
+            y2 = h.reals("y2", 3, 0.5, 6.0)
+            y20 = list(y2)
+            d.fit(x, y2)
     h.reach()
-    h.check(len(log.calls) == 1, "optimiser-called-once")
+    h.check(len(log.calls) == (2 if refit else 1), "optimiser-called-once-per-fit")
     c = log.calls[0]
+    if refit:
+        c2 = log.calls[1]
+        h.check(c2["kind"] == "curve_fit" and c2["f"] is d, "refit-fits-this-dependence-function")
+        h.close(c2["x_at_call"], x0, "refit-fitted-to-the-new-points")
+        h.close(c2["y_at_call"], y20, "refit-fitted-to-the-new-points")
+        h.close(list(c2["p0"]), list(np.ravel(npx.deep_strip(c["popt"]))), "refit-starts-from-current-parameters")
+        if weights is None:
+            h.check(c2["sigma"] is None, "refit-no-weights-no-sigma")
+        else:
+            w2 = list(np.ravel(npx.deep_strip(weights(h.arr(x0) if h.sym else np.array(x0),
+                                                      h.arr(y20) if h.sym else np.array(y20)))))
+            sg2 = c2["sigma_at_call"]
+            h.check(sg2 is not None and len(sg2) == len(w2), "refit-weights-evaluated-on-the-new-data")
+            for i in range(1, len(w2)):
+                h.close(sg2[i] * w2[0], sg2[0] * w2[i], "refit-weights-evaluated-on-the-new-data", rtol=1e-9)
+        h.close(list(d.parameters.values()), list(np.ravel(npx.deep_strip(c2["popt"]))), "refit-result-stored-name-by-name")
+        return
     if cons == "none":
         h.check(c["kind"] == "curve_fit", "unconstrained-fit-uses-curve_fit")
         h.check(c["f"] is d, "fits-this-dependence-function")
@@ -245,6 +270,9 @@ def obligations(tier):
                                                 "constraints": cons}, {})
             yield ("plumbing", h_plumbing, {"shape": "power3", "bounds": "lower/none/both", "weights": w,
                                             "constraints": cons}, {})
+        for shp in ("power3", "linear2"):
+            yield ("plumbing", h_plumbing, {"shape": shp, "bounds": "absent", "weights": w, "constraints": "none",
+                                            "refit": True}, {})
     chains = {"two": ["A", "B"], "three": ["A", "B", "C"], "join": ["A", "A2", "B"]}
     if tier == "thorough":
         chains["shared"] = ["A", "B", "C"]
